@@ -829,3 +829,48 @@ def rule_getvalue_part(prog, rep, tier, anchor="ast_utils.get_value"):
     else:
         rep.holds("GETVALUE-PART", "%s: %d path(s) that answer <node>.value" % (anchor, n), loc(prog, fi.node),
                   "each under a class test that admits none of %s" % ", ".join(sorted(parts)))
+
+
+# ---------------------------------------------------------------------------- LIVE-TYPE
+def rule_live_type(prog, rep, tier, entry="parse._inspect"):
+    """LIVE-TYPE (C19): `gen` reads live objects; the annotation of a signature parameter is an *object* (`int`, `typing.Optional[int]`).
+    The IR's `typ` is source text that is parsed again later.  `str(int)` is `<class 'int'>`: where a value derived from an
+    `.annotation` / `.return_annotation` attribute is formatted into `typ`, a class is written by its name (`__name__` /
+    `__qualname__`, under an `isinstance(.., type)` test, or through `inspect.formatannotation`)."""
+    fi0 = prog.fn(entry)
+    n = 0
+    for fi in prog.reachable([fi0]):
+        for st in ast.walk(fi.node):
+            if not (isinstance(st, ast.Assign) and any(isinstance(t, ast.Subscript) and isinstance(t.slice, ast.Constant) and t.slice.value == "typ" for t in st.targets)):
+                continue
+            live = [x for x in ast.walk(st.value) if isinstance(x, ast.Attribute) and x.attr in ("annotation", "return_annotation")]
+            if not live:
+                continue
+            n += 1
+            formatted = [c for c in ast.walk(st.value) if isinstance(c, ast.Call) and (
+                (isinstance(c.func, ast.Attribute) and c.func.attr == "format") or (isinstance(c.func, ast.Name) and c.func.id in ("str", "repr")))
+                and any(x in live for a in list(c.args) + [k.value for k in c.keywords] for x in ast.walk(a))]
+            from sa.cfg import facts
+
+            def excluded_for_classes(c):
+                """the formatting call stands where the annotation is known not to be a class (`... if isinstance(a, type) else str(a)`)"""
+                for t, pol in expr_guards(c, stop=fi.node):
+                    for atom, p_ in facts(t, pol):
+                        if isinstance(atom, ast.Call) and isinstance(atom.func, ast.Name) and atom.func.id in ("isinstance", "isclass") and atom.args \
+                                and any(y in live or (isinstance(y, ast.Attribute) and y.attr in ("annotation", "return_annotation")) for y in ast.walk(atom.args[0])) and not p_:
+                            return True
+                        if isinstance(atom, ast.Call) and isinstance(atom.func, ast.Attribute) and atom.func.attr == "isclass" and not p_:
+                            return True
+                return False
+            formatted = [c for c in formatted if not excluded_for_classes(c)]
+            by_name = any(isinstance(c, ast.Call) and getattr(c.func, "id", getattr(c.func, "attr", "")) == "formatannotation" for c in ast.walk(st.value))
+            inst = "%s: %s" % (prog.owner_name(fi), src(st, 60))
+            if formatted and not by_name:
+                rep.violation(Finding(
+                    "LIVE-TYPE", prog.owner_name(fi), "annotation-object-formatted",
+                    "%s formats the live annotation object into the IR's type: for a class this is \"<class 'int'>\", which no emitter can parse as a type - "
+                    "gen fails for every annotated function or method" % src(formatted[0], 50), loc(prog, formatted[0])))
+            else:
+                rep.holds("LIVE-TYPE", inst, loc(prog, st), "a class is written by its name")
+    if n == 0:
+        raise AnalysisError("LIVE-TYPE: no assignment of a live annotation to 'typ' found from %s" % entry)
